@@ -489,6 +489,12 @@ class MultiScn(Scenario):
                 scn = SCENARIOS[part]
                 node.ovs[part] = node.add(scn.overlay_class(), scn.settings(node, i))
             node.ov = node.ovs["discovery"]
+            if getattr(c, "case", {}).get("offer_all"):
+                # the overlays are (also) registered as plain listeners (Endpoint.add_listener): the endpoint offers every datagram to
+                # every one of them, and each overlay's own prefix test is what keeps foreign datagrams out.  (Up to the repair of
+                # TunnelEndpoint.remove_listener this is what happened behind a TunnelEndpoint anyway.)
+                for ov in node.ovs.values():
+                    node.raw_endpoint.add_listener(ov)
             nodes.append(node)
         return nodes
 
